@@ -157,6 +157,11 @@ func genSrvScenario(rng *rand.Rand, cfg string) string {
 				if nb > 0 && rng.Intn(3) == 0 {
 					steps = append(steps, "shx", "j")
 					shutdown = "done"
+					if rng.Intn(2) == 0 {
+						// the caller tries again after the first call gave up
+						steps = append(steps, "sh")
+						shutdown = "pending"
+					}
 					for k := range alive {
 						if !blocked[k] {
 							alive[k] = false
@@ -253,6 +258,17 @@ var srvTemplates = []string{
 	"- c1;c2;b1.5;q2.6;sh;rb1;j;c3",
 	"- c1;b1.5;x;rb1",
 	"- c1;b1.7;rb1;q1.8;d1",
+	"- c1;g1.9;d1;c2;q2.5",
+	"- c1;c2;g1.9;q2.5;d1;q2.6;c3;g3.8;c4;q4.7;q2.8",
+	"- c1;s1.8;shx;j;sh;f1;j",
+	"- c1;c2;s1.8;shx;j;shx;j;f1;q1.9;sh;j",
+}
+
+// the scenarios of C15 that go through server.Serve: a fragment left behind by one connection must not reach another
+var srvTemplatesC15 = []string{
+	"- c1;g1.9;d1;c2;q2.5",
+	"- c1;c2;g1.9;q2.5;d1;q2.6;c3;g3.8;c4;q4.7;q2.8",
+	"- c1;q1.1;g1.2;d1;c2;q2.3;q2.4",
 }
 
 func init() {
